@@ -735,7 +735,8 @@ func itemsOf(v *Val, r *rand.Rand) (valid []PItem, kids []*Val) {
 			switch {
 			case v.KT == tSTR && r.Intn(3) != 0:
 				valid = append(valid, PItem{K: "str", B: B(p.K.B)})
-			case (v.KT == tI8 || v.KT == tI16 || v.KT == tI32 || v.KT == tI64) && r.Intn(3) != 0:
+			case (v.KT == tI16 || v.KT == tI32 || v.KT == tI64 || (v.KT == tI8 && p.K.B[0] < 0x80)) && r.Intn(3) != 0:
+				// (i8 keys with the high bit set are addressed by raw key: their Go-int rendering is not fixed, App. B.5)
 				valid = append(valid, PItem{K: "int", B: signExt8(p.K.B)})
 			default:
 				valid = append(valid, PItem{K: "bin", B: B(p.K.Enc(nil))})
